@@ -369,4 +369,90 @@ example : ∃ s, run {} true (init {}) completedRootRun = some s ∧
     ∃ s₁, step {} true s .kill = some s₁ ∧ s₁.live.map (·.dn) = [["a"]] ∧ s₁.live.all (instCancelled s₁.tree) = true := by
   decide
 
+/-! ## a refused RunGroup / Run call -/
+
+/-- `names` is a batch `RunGroup` has to refuse: one of its names has no character of `[a-z0-9_]`, or is already
+the name of a child of the caller. -/
+def Refused (t : Tree) (dn : DN) (names : List String) : Prop :=
+  ∃ nm ∈ names, validName nm = false ∨ (find t (dn ++ [nm])).isSome = true
+
+/-- **A refused batch has no effect.**  When a running service calls `RunGroup` (or `Run`) with a batch that contains
+an invalid name or a name already in use under it, the call returns an error and NOTHING changes: no child node is
+created for any of the other names of the batch, no group is recorded, no request is sent, nobody's context is
+touched, the caller keeps running.  (The names are checked in a pass of their own before the first child is made.) -/
+theorem c18_rejected_group_no_effect (P : Params) (fixed : Bool) {s s' : Sys} {iid : Nat} {i : Inst} {names : List String}
+    (hi : s.live.find? (fun j => j.iid = iid) = some i) (hnode : (find s.tree i.dn).isSome = true)
+    (hbad : Refused s.tree i.dn names) (h : step P fixed s (.run iid names) = some s') :
+    s' = s ∧ runGroup P s.tree i.dn names s.nextInc = .ok none := by
+  have hr : runGroup P s.tree i.dn names s.nextInc = .ok none := by
+    unfold runGroup
+    cases hf : find s.tree i.dn with
+    | none => rw [hf] at hnode; cases hnode
+    | some n =>
+      simp only
+      split
+      · rfl
+      · have : names.any (fun nm => !validName nm || (find s.tree (i.dn ++ [nm])).isSome) = true := by
+          obtain ⟨nm, hm, hb⟩ := hbad
+          refine List.any_eq_true.2 ⟨nm, hm, ?_⟩
+          rcases hb with hb | hb <;> simp [hb]
+        rw [if_pos this]
+  refine ⟨?_, hr⟩
+  simp only [step, hi] at h
+  split at h
+  · cases h
+  · rw [hr] at h
+    simp only [Option.some.injEq] at h
+    exact h.symm
+
+/-- `root` has started `a`; then asks for the batch `{b, a, c}` (`a` is taken) and for `{b, "A-B"}` (invalid name) -/
+example : ∃ s, run {} true (init {}) [.sched [], .run 0 ["a"]] = some s ∧
+    Refused s.tree [] ["b", "a", "c"] ∧ Refused s.tree [] ["b", "A-B"] ∧
+    step {} true s (.run 0 ["b", "a", "c"]) = some s ∧ step {} true s (.run 0 ["b", "A-B"]) = some s := by
+  refine ⟨_, rfl, ⟨"a", by decide, Or.inr (by decide)⟩, ⟨"A-B", by decide, Or.inl (by decide)⟩, by decide, by decide⟩
+
+/-- **A service that fails on a refused batch is restarted like any other.**  The caller gets the error and returns it
+(`ret .other`, its own context live or not); the processor handles that exit (`processDied`: `DEAD`, its context and
+its group cancelled).  The refused call has left nothing behind, so once everything the caller had started EARLIER
+has stopped (`ready`) and its parent's context is live, the next GC pass puts the schedule request of the caller
+(or of an ancestor that died as well) in flight and `processSchedule` starts it again — `c18_restart_sys` applies
+unchanged. -/
+theorem c18_rejected_caller_restarted (P : Params) (fixed : Bool) {s : Sys} (hk : s.killed = false) {iid : Nat} {i : Inst}
+    {names : List String} {n : Node} (hi : s.live.find? (fun j => j.iid = iid) = some i) (hf : find s.tree i.dn = some n)
+    (hnd : names.Nodup) (hbad : Refused s.tree i.dn names)
+    {t' : Tree} (hd : processDied s.tree i.dn .other = .ok t')
+    (hpar : parentLive t' i.dn = true) (hsub : ready fixed t' i.dn = true) :
+    ∃ s₃, run P fixed s [.run iid names, .ret iid .other, .died i.dn .other] = some s₃ ∧ s₃.tree = t' ∧
+      ∃ s₄ r, step P fixed s₃ .gc = some s₄ ∧ under r i.dn = true ∧ Req.sched r ∈ s₄.pend ∧
+        ∃ s₅, step P fixed s₄ (.sched r) = some s₅ ∧ ∃ j ∈ s₅.live, j.dn = r := by
+  have hrun : step P fixed s (.run iid names) = some s := by
+    have hr : runGroup P s.tree i.dn names s.nextInc = .ok none := by
+      cases hs : step P fixed s (.run iid names) with
+      | none => simp [step, hi, hnd] at hs; split at hs <;> simp_all
+      | some s' => exact (c18_rejected_group_no_effect P fixed hi (by rw [hf]; rfl) hbad hs).2
+    simp [step, hi, hnd, hr]
+  let s₂ : Sys := { s with live := s.live.erase i, pend := s.pend ++ [.died i.dn .other] }
+  have hret : step P fixed s (.ret iid .other) = some s₂ := by simp [step, hi, s₂]
+  let s₃ : Sys := { s₂ with pend := s₂.pend.erase (.died i.dn .other), tree := t' }
+  have hdied : step P fixed s₂ (.died i.dn .other) = some s₃ := by
+    have hm : Req.died i.dn .other ∈ s₂.pend := List.mem_append.2 (Or.inr (List.mem_singleton.2 rfl))
+    have hk2 : s₂.killed = false := hk
+    have hd2 : processDied s₂.tree i.dn .other = .ok t' := hd
+    simp [step, hk2, hm, hd2, s₃]
+  obtain ⟨g, rfl, hkeep, hst, _, _, _⟩ := processDied_dead hf (by simp) (by simp) hd
+  have hn := (find_some hf)
+  have hmem : g n ∈ s₃.tree := List.mem_map.2 ⟨n, hn.1, rfl⟩
+  have hdn : (g n).dn = i.dn := by rw [(hkeep n).1]; exact hn.2
+  have hk3 : s₃.killed = false := hk
+  obtain ⟨s₄, r, h4, hu, hp, h5⟩ := c18_restart_sys P fixed hk3 hmem (Or.inl (hst n hn.2).1) (by rw [hdn]; exact hpar) (by rw [hdn]; exact hsub)
+  refine ⟨s₃, ?_, rfl, s₄, r, h4, by rw [← hdn]; exact hu, hp, h5⟩
+  simp only [run, hrun, hret, hdied]
+
+/-- `root` starts `a`, is refused `{b, a, c}`, returns the error; `a` is cancelled and returns; the GC restarts `root` -/
+example : ∃ s, run {} true (init {}) [.sched [], .run 0 ["a"], .sched ["a"], .sig 1 .healthy, .run 0 ["b", "a", "c"], .ret 0 .other,
+      .died [] .other, .ret 1 .ctx, .died ["a"] .ctx] = some s ∧ s.killed = false ∧ s.tree.map (fun n => (n.dn, n.state)) = [([], .dead), (["a"], .canceled)] ∧
+    parentLive s.tree [] = true ∧ ready true s.tree [] = true ∧
+    ∃ s', run {} true s [.gc, .sched []] = some s' ∧ s'.live.map (·.dn) = [[]] ∧ s'.tree.map (fun n => (n.dn, n.state, n.cancelled)) = [([], .new, false)] := by
+  decide
+
 end Whv.C18
